@@ -69,6 +69,10 @@ func main() {
 		}
 		runCase(c)
 		enc.Encode(c)
+		if abortAfterEmit {
+			out.Flush()
+			os.Exit(3)
+		}
 	}
 	switch *mode {
 	case "binrun":
